@@ -160,6 +160,12 @@ func (w *World) ApplyEnv(ctx sdk.Context, env string) error {
 			}
 		}
 		return nil
+	case "ensure-stray-5uusdc":
+		have := w.App.BankKeeper.GetBalance(ctx, w.Orb, denomUSDC).Amount
+		if have.LT(math.NewInt(5)) {
+			return w.Deposit(ctx, w.Orb, denomUSDC, 5-have.Int64())
+		}
+		return nil
 	case "genesis-roundtrip":
 		return w.applyGenesisEnv(ctx, env)
 	case "seed-stats-int64":
